@@ -77,7 +77,7 @@ fn build(uris: &[String], ways: &[Way], import_order: &[usize]) -> SchemaSet {
     start.comps.push(Comp::Complex(ComplexType { name: "Holder".into(), xmlns: nested, seq: Some(Seq::of(members)), ..Default::default() }));
     let mut all = vec![start];
     all.extend(files);
-    SchemaSet { files: all, wsdl: None, start: "start.xsd".into() }
+    SchemaSet { files: all, wsdl: None, start: "start.xsd".into(), xs_is_default_namespace: false }
 }
 
 fn permutations(v: &[usize]) -> Vec<Vec<usize>> {
@@ -178,7 +178,7 @@ fn states(tier: &str) -> Vec<(State, BTreeMap<&'static str, String>)> {
         ctx.insert("uris", "one-namespace-in-two-files".to_string());
         ctx.insert("ways", format!("order{order}-between{with_between}"));
         ctx.insert("count", "3".to_string());
-        spread.push((State { label: format!("one namespace in two imported files, import order {order}, third namespace in between: {with_between}"), depth: 2, set: SchemaSet { files, wsdl: None, start: "start.xsd".into() } }, ctx));
+        spread.push((State { label: format!("one namespace in two imported files, import order {order}, third namespace in between: {with_between}"), depth: 2, set: SchemaSet { files, wsdl: None, start: "start.xsd".into(), xs_is_default_namespace: false } }, ctx));
     }
     // selected 6-sets
     let six: Vec<String> = u[..6].iter().map(|s| s.to_string()).collect();
